@@ -15,6 +15,7 @@ from fractions import Fraction as F
 
 import backends
 import capture
+import analysis
 import common
 from common import Check, Driver, rs
 
@@ -259,6 +260,14 @@ def float_mode(chk: Check, n, kinds):
                         tol = (64 * nn * U * float(np.abs(da * db).sum()) / (nn - 1)
                                + 64 * (nn * U) ** 2 * float(np.linalg.norm(xs[a]) * np.linalg.norm(xs[b])) / (nn - 1)
                                + 1e-12 * abs(float(e)) + 1e-300)
+                    try:
+                        finite = got is not None and math.isfinite(float(got))
+                    except (TypeError, ValueError):
+                        finite = False
+                    if not finite:
+                        chk.fail(f"{kind_} of {c} is not a finite number although the variant's rows are finite",
+                                 dict(input=inp, variant=repr(v), got=repr(got), expected=float(e)))
+                        continue
                     err = abs(F(got) - e)
                     worst = max(worst, float(err) / tol)
                     if err > tol:
@@ -294,6 +303,7 @@ def main():
     evaluate_captured(chk, mism)
     kinds = ("pandas", "polars", "polars-lazy", "pyarrow", "pyarrow-chunked", "ibis-sqlite")
     float_mode(chk, 15 if q else 150, kinds)
+    analysis.narrow_ints(chk, 4 if q else 24, "per-variant aggregates are not the sample statistics")
     chk.cov["rule"] = ("structural: random column requests (duplicates, reversed pairs, empty subsets) x grouped/ungrouped x "
                        "int/float columns x {narwhals, ibis native, ibis fallback}; float: 1-5 variants (int/str/bool ids), "
                        "2..400 rows each, shuffled, modes plain / offset 1e6-1e9 / ties / big ints / tiny spread, 5 input kinds")
